@@ -14,6 +14,9 @@ CHECKS = {
  'C03': dict(cat='translation_validation', tech='z3 regular-language equivalence / inclusion and finite-relation queries on tables extracted from the imported library vs an independently derived, pinned model of the XSD',
              text='Every generated or hand-written table of the library (class inventory, type binding, content-model templates and fresh-instance trees, attribute tables, simple-type facets and patterns, the schema copy) is compared with an independent reading of MusicXML 4.0; content models and patterns by unbounded regular-language equivalence decided by z3, the rest as finite relations.',
              note='trusts vf/refmodel.py and the pinned model, z3 sequence theory, the two regex translators (cross-validated against re); patterns relative to a finite alphabet and length <= 10/14', ref='3 C03'),
+ 'C04': dict(cat='model_checking', tech='finite (class, attribute, route) table enumerated on the real API with z3-chosen values inside and outside each reference lexical space; symbolic exploration (int/Float64/string) of attribute assignment per distinct attribute type',
+             text='Every declared (class, attribute) pair and foreign names on three routes (constructor keyword, dot assignment, parser) with valid and invalid values chosen by z3, then set / failed overwrite / overwrite / None; required attributes removed before to_string; per attribute type a symbolic exploration checks that every accepted value emits valid attribute text. Each class runs in a fresh process after every other simple type was used.',
+             note='the (class, name) table is finite and enumerated; values are solver-chosen representatives, all values per type are C05\'s; python-side properties (xsd_check, value_, ...) are not judged as attributes', ref='3 C04'),
  'C05': dict(cat='model_checking', tech='dynamic symbolic execution of the real validators on symbolic int / Float64 / string values (z3), one validity query per path against the reference lexical spaces',
              text='The real simple-type classes and element constructors run on symbolic ints (unbounded), floats (all of Float64) and strings (finite alphabet, bounded length); all paths are enumerated and closed by unsat answers; per accepting path z3 is asked for a value whose emitted text is invalid, per rejecting path for a valid one; every path is cross-validated by a concrete run.',
              note='stubs: re.fullmatch -> z3 InRe of the translated pattern, get_cleaned_token identity on normalised strings, decimal.Decimal/format positional rendering; CPython str/repr lemmas; finite alphabet', ref='3 C05'),
